@@ -307,15 +307,10 @@ func c11Tight(src string) (string, bool) {
 	out := ""
 	for i, p := range parts {
 		if i > 0 {
-			// keep a blank only where gluing changes the token stream
-			cand := out + p
-			a, e1 := lexer.Lex(file.NewSource(cand))
-			b, e2 := lexer.Lex(file.NewSource(out + " " + p))
-			same := e1 == nil && e2 == nil && len(a) == len(b)
-			for k := 0; same && k < len(a); k++ {
-				same = a[k].Kind == b[k].Kind && a[k].Value == b[k].Value
-			}
-			if !same {
+			// a blank is dropped only next to a bracket, parenthesis, brace or comma: there the language definition
+			// leaves no doubt that the neighbours are separate tokens (the rule does not consult the lexer under test)
+			lc, rc := out[len(out)-1], p[0]
+			if !strings.ContainsRune("()[]{},", rune(lc)) && !strings.ContainsRune("()[]{},", rune(rc)) {
 				out += " "
 			}
 		}
